@@ -41,7 +41,7 @@ PROBES = [
     "probe.runtime_error_line", "probe.runtime_error_after_effects", "probe.continued_line",
     "probe.closure_call", "probe.recursion", "probe.echo_seen", "probe.use_after_reject", "probe.two_rejects_in_a_row",
     "probe.blank_entry", "probe.continued_line_closed_by_blank", "probe.comment_only_line", "probe.runtime_error_inside_call",
-    "probe.function_literal_in_container", "probe.block_local_let", "probe.late_builtins", "probe.comment_before_continuation", "probe.string_spans_continuation",
+    "probe.function_literal_in_container", "probe.block_local_let", "probe.late_builtins", "probe.float_literal", "probe.same_body_other_arity", "probe.comment_before_continuation", "probe.string_spans_continuation",
 ]
 THOROUGH_ONLY_PROBES = ["probe.long_session"]
 COMPONENTS = {
@@ -68,8 +68,12 @@ def _iexpr(rng, env, depth=2, extra=None):
     funs = [n for n, k in env.items() if k == "fn"]
     farrs = [n for n, k in env.items() if k == "fnarr"]
     fmaps = [n for n, k in env.items() if k == "fnmap"]
+    funs2 = [n for n, k in env.items() if k == "fn2"]
     if depth <= 0 or rng.chance(40):
-        k = rng.weighted([(40, "c"), (45 if ints else 0, "v"), (15 if funs else 0, "call"), (10 if farrs else 0, "acall"), (10 if fmaps else 0, "mcall")])
+        k = rng.weighted([(40, "c"), (45 if ints else 0, "v"), (15 if funs else 0, "call"), (10 if farrs else 0, "acall"), (10 if fmaps else 0, "mcall"),
+                          (10 if funs2 else 0, "call2")])
+        if k == "call2":
+            return "%s(%s, 1)" % (rng.choice(funs2), _iexpr(rng, env, 0, extra))
         if k == "c":
             return str(rng.choice([0, 1, 2, 3, 5, 7, 10, 42, 100]))
         if k == "v":
@@ -101,7 +105,22 @@ def _ok_stmt(rng, env, stats):
         (22, "let"), (10 if ints else 0, "assign"), (12, "fn"), (20, "print"), (6, "str"), (6, "arr"),
         (6, "if"), (5, "letif"), (4, "rec"), (5 if arrs else 0, "arrop"), (4, "loop"), (3, "map"),
         (4, "fnarr"), (3, "fnmap"), (3, "fnif"), (4 if funs0 else 0, "fnassign"), (6, "blocklet"), (9, "builtin"),
+        (6, "floatlit"), (9, "arity"),
     ])
+    if k == "floatlit":
+        # float literals whose value equals an integer literal used elsewhere in the session (2 vs 2.0):
+        # the two are different constants
+        c = rng.choice([2, 3, 5, 7, 10])
+        return rng.choice(["puts(%d / %d.0);" % (c + 5, c), "puts(%d.0 * 3);" % c, "puts([10, 20, 30, 40, 50, 60, 70, 80, 90, 100, 110][%d]);" % c,
+                           "puts(%d / %d);" % (c + 5, c), "puts(%d.0 == %d);" % (c, c)]), []
+    if k == "arity":
+        # functions with identical bodies but different parameter lists
+        # (literal-free bodies from a tiny set, so that equal code with another arity recurs across lines)
+        f1 = rng.choice(FUNS)
+        body = rng.choice(["n + n", "n * n", "(n - n) + n"])
+        if rng.chance(50):
+            return "let %s = fn(n, m) { %s };" % (f1, body), [(f1, "fn2")]
+        return "let %s = fn(n) { %s };" % (f1, body), [(f1, "fn")]
     if k == "builtin":
         # builtins from the whole table (the REPL registers them itself, separately from scripts)
         e1 = _iexpr(rng, env, 1)
@@ -195,7 +214,9 @@ def _probe_line(env):
     parts = []
     for n in sorted(env):
         k = env[n]
-        if k == "fnarr":
+        if k == "fn2":
+            parts.append("puts(%s(3, 4));" % n)
+        elif k == "fnarr":
             parts.append("puts(%s[0](3)); puts(%s[1](3));" % (n, n))
         elif k == "fnmap":
             parts.append('puts(%s["k"](3));' % n)
@@ -465,6 +486,10 @@ def check(model, results):
             inc("probe.function_literal_in_container")
         if "{ let " in ln["text"] and kind == "ok":
             inc("probe.block_local_let")
+        if re.search(r"\d\.0", ln["text"]) and kind == "ok":
+            inc("probe.float_literal")
+        if "fn(n, m)" in ln["text"] and kind == "ok":
+            inc("probe.same_body_other_arity")
         if kind in ("ok", "probe") and re.search(r"\b(sort|chars|join|is_error|strerror|rest|pop|format|decode_utf8)\(", ln["text"]):
             inc("probe.late_builtins")
         if "// note\n" in ln["text"]:
